@@ -350,6 +350,16 @@ EditReturned(h, what) ==
   /\ Obs("EditReturned", h, <<what>>, <<>>, <<>>)
   /\ UNCHANGED << ds, store, ver, ideal, ball, kd, jac, tmpl, exports >>
 
+\* the caller goes on using what it handed to the constructor: it overwrites, in place, the arrays (coordinate
+\* arrays, connectivity, the variables of its dataset) the grid on handle h was built from.  What the grid reports
+\* must not change; a mechanism that keeps the caller's buffers (Mech.inputShares) changes behind the handle's back
+EditInput(h) ==
+  /\ Live(h) /\ h \in Base
+  /\ ver[D(h)] < MaxMut
+  /\ ver' = IF Mech.inputShares THEN [ver EXCEPT ![D(h)] = @ + 1] ELSE ver
+  /\ Obs("EditInput", h, <<>>, <<>>, <<>>)
+  /\ UNCHANGED << ds, store, ideal, ball, kd, gdf, poly, line, jac, tmpl, exports >>
+
 (* ---- next-state relations ------------------------------------------------ *)
 Families == { "access", "access1", "plot1", "areas", "trees", "plot", "data", "export", "derive", "chunk", "mutate", "edit", "copy",
               "flags", "metrics", "norec", "all" }   \* "flags": cache/override variants; "metrics": non-default metrics
@@ -381,6 +391,7 @@ ReadOnly ==
 
 Mutators ==
   \/ On("mutate") /\ \E h \in Handles, how \in { "normalize", "face_centers", "setter", "inplace" } : Mutate(h, how)
+  \/ On("edit") /\ \E h \in Handles : EditInput(h)
   \/ On("edit") /\ \E e \in exports : EditExport(e)
   \/ On("edit") /\ \E h \in Handles, what \in { "gdf", "poly", "line" } : EditReturned(h, what)
   \/ On("copy") /\ \E h \in Handles, c \in Handles \ Base, route \in CopyRoutes : Copy(h, c, route)
@@ -433,7 +444,7 @@ MechIntended ==
     polyCmp |-> { "pe", "proj" }, polyStore |-> { "pe", "proj" },
     lineCmp |-> { "pe", "proj" }, lineStore |-> { "pe", "proj" },
     gdfReturn |-> "copy", polyReturn |-> "copy", lineReturn |-> "copy", dataColInto |-> "copy",
-    copyDs |-> "deep", copyShares |-> {}, ugridExport |-> "new", topoTmpl |-> "copied", jacSlot |-> "default_only" ]
+    copyDs |-> "deep", copyShares |-> {}, inputShares |-> FALSE, ugridExport |-> "new", topoTmpl |-> "copied", jacSlot |-> "default_only" ]
 
 \* the code as it is now (pinned commit plus the fix: commits recorded in known_findings.json): the
 \* only remaining deviation from the intended mechanism is that to_geodataframe hands out its cached
@@ -444,7 +455,7 @@ MechObserved ==
     polyCmp |-> { "pe", "proj" }, polyStore |-> { "pe", "proj" },
     lineCmp |-> { "pe", "proj" }, lineStore |-> { "pe", "proj" },
     gdfReturn |-> "cached", polyReturn |-> "copy", lineReturn |-> "copy", dataColInto |-> "copy",
-    copyDs |-> "deep", copyShares |-> {}, ugridExport |-> "new", topoTmpl |-> "copied", jacSlot |-> "default_only" ]
+    copyDs |-> "deep", copyShares |-> {}, inputShares |-> FALSE, ugridExport |-> "new", topoTmpl |-> "copied", jacSlot |-> "default_only" ]
 
 \* the code as it was before the fix: commits (kept to show that the model finds each defect)
 MechPinned ==
@@ -453,9 +464,12 @@ MechPinned ==
     polyCmp |-> { "pe", "proj" }, polyStore |-> { "pe", "proj" },
     lineCmp |-> { "pe", "proj" }, lineStore |-> { "pe" },
     gdfReturn |-> "cached", polyReturn |-> "copy", lineReturn |-> "cached", dataColInto |-> "cached",
-    copyDs |-> "shared", copyShares |-> {}, ugridExport |-> "internal", topoTmpl |-> "shared", jacSlot |-> "last_compute" ]
+    copyDs |-> "shared", copyShares |-> {}, inputShares |-> FALSE, ugridExport |-> "internal", topoTmpl |-> "shared", jacSlot |-> "last_compute" ]
 
 \* a deep copy of a data array / dataset made with replacement data keeps the original's Grid
 \* (kept to show that the model tells the copy routes apart)
 MechCopyDataShares == [ MechIntended EXCEPT !.copyShares = { "uxda_deep_data", "uxds_deep_data" } ]
+
+\* the grid keeps the caller's own buffers (kept to show that EditInput is not vacuous)
+MechInputShares == [ MechIntended EXCEPT !.inputShares = TRUE ]
 =============================================================================
